@@ -7,6 +7,7 @@
 -/
 import NngModel.Proofs.WsRules
 import NngModel.Proofs.WsConform
+import NngModel.Generated.C16
 namespace Nng.Ws
 open Nng.Msg (length_beEncode beDecode_beEncode)
 
